@@ -400,13 +400,29 @@ def field_mutations(prog, owner):
                     for root in alias[plx["l"]]:
                         ent = mb[root]
                         used = False
+
+                        def shared_only(a, cb=cb):
+                            """the argument is a shared re-borrow (`&*x` / `&x.f`): reading through the captured reference, not mutating"""
+                            pl = a.get("m") or a.get("c")
+                            if pl is None or pl["p"]:
+                                return False
+                            ds = [d_ for d_ in cb.defs().get(pl["l"], []) if d_[0] == "stmt"]
+                            return bool(ds) and all(d_[3]["rv"]["k"] == "ref" and not d_[3]["rv"].get("mut") for d_ in ds)
                         for c in cb.calls():
                             for ai, a in enumerate(c.args):
                                 t = cb.operand_term(a)
                                 if K.mentions(t, lambda x: x[0] == "upvar" and x[1] == nm) and not K.mentions(t, lambda x: x[0] == "call"):
+                                    if shared_only(a):
+                                        used = True
+                                        continue
                                     opn = c.name.rsplit("::", 1)[-1] + ("" if ai == 0 else "#arg%d" % ai)
                                     out.setdefault(ent[0], {}).setdefault(opn, []).append((fn, c.span))
                                     used = True
+                        # `*captured = v` inside the closure
+                        for (bb3, i3, dst3, rv3, sp3) in cb.assignments():
+                            if dst3["l"] == 1 and any(p_[0] == "f" and p_[1] == nm for p_ in dst3["p"][:3]):
+                                out.setdefault(ent[0], {}).setdefault("assign", []).append((fn, sp3))
+                                used = True
                         if used:
                             ent[2] = True
         # direct assignment through an aliased borrow: `*c = v`
@@ -892,39 +908,69 @@ def ob_loop_exits(run, oid, prefixes, why):
 
 # ------------------------------------------------------------------------------------ derived (structural) impls stay structural
 def _manual_impl_is_fieldwise(prog, adt, trait, impl_def):
-    """a hand-written PartialEq / Ord / Hash / Clone that still treats every field as a whole: each field of the type takes part, through a
-    call of the same trait's method (or `==`) on exactly that field of self (and of other), with no indexing, slicing, loops or arithmetic"""
+    """a hand-written PartialEq / Ord / Hash / Clone / Default that does what the derive would: every field of the type takes part as a whole
+    (compared with the same field of `other` by == / the same trait's method, cloned or copied into the same field, defaulted to its
+    type's default), with no indexing, slicing, loops or arithmetic"""
     r = prog.adts.get(adt)
-    if r is None:
+    if r is None or r.get("is_enum"):
         return False
-    method = {"PartialEq": "eq", "PartialOrd": "partial_cmp", "Ord": "cmp", "Hash": "hash", "Clone": "clone"}.get(trait)
+    method = {"PartialEq": "eq", "PartialOrd": "partial_cmp", "Ord": "cmp", "Hash": "hash", "Clone": "clone", "Default": "default"}.get(trait)
     if method is None:
         return False
     b = prog.bodies.get(mir.strip_generics(impl_def) + "::" + method)
-    if b is None:
-        return False
-    if b.loops():
+    if b is None or b.loops():
         return False
     fields = [f["name"] for v in r["variants"] for f in v["fields"]]
-    if r.get("is_enum"):
-        return False
-    seen = set()
+
+    def own_field(t, pidx=None):
+        t = K.peel(t)
+        while isinstance(t, tuple) and t and t[0] in ("ref", "deref") and len(t) > 1:
+            t = t[1]
+        if isinstance(t, tuple) and t and t[0] == "field" and isinstance(t[1], tuple) and t[1][0] == "param" and (pidx is None or t[1][1] == pidx) and str(t[3]).split("::<")[0] == adt:
+            return t[2]
+        return None
     for c in b.calls():
         last = c.name.rsplit("::", 1)[-1]
         if last in ("index", "index_mut", "get", "get_unchecked", "chunks", "chunks_exact", "step_by", "iter", "split_at", "from_le_bytes", "from_be_bytes", "from_ne_bytes", "try_into"):
             return False
-        if last in (method, "eq", "ne", "cmp", "partial_cmp", "ct_eq", "hash", "clone", "then", "then_with"):
-            for a in c.args:
-                t = K.peel(b.operand_term(a))
-                while isinstance(t, tuple) and t and t[0] in ("ref", "deref") and len(t) > 1:
-                    t = t[1]
-                if isinstance(t, tuple) and t and t[0] == "field" and isinstance(t[1], tuple) and t[1][0] == "param" and t[3].split("::<")[0] == adt:
-                    seen.add(t[2])
     for bl in b.blocks:
         for st in bl["stmts"]:
-            if st["k"] == "assign" and st["rv"]["k"] == "bin" and st["rv"].get("op") in ("BitXor", "BitOr", "BitAnd", "Shl", "Shr", "Add", "Sub", "Mul"):
+            if st["k"] == "assign" and st["rv"]["k"] == "bin" and st["rv"].get("op") in ("BitXor", "BitOr", "Shl", "Shr", "Add", "Sub", "Mul", "AddWithOverflow", "SubWithOverflow", "MulWithOverflow"):
                 return False
-    return set(fields) <= seen
+    seen = set()
+    if trait in ("PartialEq", "PartialOrd", "Ord", "Hash"):
+        for c in b.calls():
+            last = c.name.rsplit("::", 1)[-1]
+            if last in (method, "eq", "ne", "cmp", "partial_cmp", "ct_eq", "hash", "then", "then_with"):
+                fs = [own_field(b.operand_term(a)) for a in c.args]
+                fs = [f for f in fs if f]
+                if fs and len(set(fs)) == 1:
+                    seen.add(fs[0])
+        for bb, i, dst, rv, sp in b.assignments():
+            if rv["k"] == "bin" and rv.get("op") in ("Eq", "Ne", "Lt", "Le", "Gt", "Ge", "Cmp"):
+                fa, fb = own_field(b.operand_term(rv["a"])), own_field(b.operand_term(rv["b"]))
+                if fa and fa == fb:
+                    seen.add(fa)
+        return set(fields) <= seen
+    aggs = [(bb, rv) for (bb, rv, sp, dst) in b.aggregates(adt)]
+    if len(aggs) != 1:
+        return False
+    rv = aggs[0][1]
+    ops = dict(zip(rv.get("fields", []), rv.get("ops", [])))
+    if set(ops) != set(fields):
+        return False
+    for f, op in ops.items():
+        t = K.peel(b.operand_term(op))
+        if trait == "Clone":
+            if own_field(t, 1) != f:
+                return False
+        else:       # Default
+            ok = (isinstance(t, tuple) and t and t[0] == "const" and t[2] in (0, "false", "", '""', 0.0)) or \
+                 (isinstance(t, tuple) and t and t[0] == "agg" and str(t[2]) == "None") or \
+                 (isinstance(t, tuple) and t and t[0] == "call" and t[1].rsplit("::", 1)[-1] in ("new", "default") and all(isinstance(a, tuple) and a and a[0] == "const" for a in t[2]))
+            if not ok:
+                return False
+    return True
 
 
 def ob_structural_impls(run, oid, prefixes, why):
